@@ -280,7 +280,11 @@ macro_rules! impl_bop {
                             + cond[1].b() * rvax
                             + ay * (cond[0].u() * self.base_rate + cond[1].u() * rvax);
                         let px = self.projection();
-                        let r = cond[1].b() + ay * (1.0 - cond[1].b() - cond[0].d());
+                        let r = if bp {
+                            cond[1].b() + ay * (1.0 - cond[1].b() - cond[0].d())
+                        } else {
+                            cond[0].b() + ay * (1.0 - cond[0].b() - cond[1].d())
+                        };
                         match (pyx > r, px > self.base_rate) {
                             (false, false) => {
                                 if bp {
